@@ -200,6 +200,35 @@ func runQuery(t tableLike, q string) (res string) {
 		}
 		s, _ := drainLogs(it)
 		return s
+	case "rr":
+		k, _ := hex.DecodeString(p[1])
+		tab, isTab := t.(reftable.Table)
+		if !isTab {
+			return "badquery"
+		}
+		r, err := reftable.ReadRef(tab, string(k))
+		if err != nil {
+			return "err"
+		}
+		if r == nil {
+			return ""
+		}
+		return fmtRef(r)
+	case "rl":
+		k, _ := hex.DecodeString(p[1])
+		u, _ := strconv.ParseUint(p[2], 10, 64)
+		tab, isTab := t.(reftable.Table)
+		if !isTab {
+			return "badquery"
+		}
+		l, err := reftable.ReadLogAt(tab, string(k), u)
+		if err != nil {
+			return "err"
+		}
+		if l == nil {
+			return ""
+		}
+		return fmtLog(l)
 	case "rf":
 		k, _ := hex.DecodeString(p[1])
 		it, err := t.RefsFor(k)
